@@ -120,6 +120,34 @@ func (r *Report) Finish() int {
 		"wall_s":      time.Since(r.T0).Seconds(),
 		"violations":  r.Violations,
 	}
+	if os.Getenv("VERIF_EVIDENCE_MERGE") != "" {
+		// this run is the second half of a property whose first half (input-space enumeration)
+		// already wrote the evidence file: nest this run's coverage under one key
+		if old, err := os.ReadFile(filepath.Join(r.VerifDir, "evidence", r.Prop+".json")); err == nil {
+			var prev map[string]interface{}
+			if json.Unmarshal(old, &prev) == nil {
+				if pc, ok := prev["coverage"].(map[string]interface{}); ok {
+					pc["receiver_histories"] = cov
+					if ex, ok := pc["exhaustive"].(bool); ok {
+						pc["exhaustive"] = ex && exhaustive
+					}
+				}
+				if v, ok := prev["violations"].(float64); ok {
+					prev["violations"] = int(v) + r.Violations
+				}
+				if w, ok := prev["wall_s"].(float64); ok {
+					prev["wall_s"] = w + time.Since(r.T0).Seconds()
+				}
+				if as, ok := prev["assumptions"].([]interface{}); ok {
+					for _, a := range baseAssumptions {
+						as = append(as, "receiver histories: "+a)
+					}
+					prev["assumptions"] = as
+				}
+				ev = prev
+			}
+		}
+	}
 	b, _ := json.MarshalIndent(ev, "", " ")
 	if err := os.WriteFile(filepath.Join(r.VerifDir, "evidence", r.Prop+".json"), b, 0o644); err != nil {
 		fmt.Println("INFRA-ERROR cannot write evidence:", err)
